@@ -13,6 +13,8 @@ LayerA ==
       [] Rec.kind = "case" -> IF Rec.exit \notin {0, 1} THEN "ExitOnValidConfig"
                               ELSE IF Rec.observed = EffectiveA THEN "ok"
                               ELSE IF Rec.observed = -1 THEN "EffectiveUnknown" ELSE "Precedence"
+      [] Rec.kind = "ignore_list" -> IF Rec.exit \notin {0, 1} THEN "ExitOnValidConfig"
+                                     ELSE IF Rec.observed = IgnoreWinner THEN "ok" ELSE "IgnoreListCarrier"
       [] Rec.kind = "enabled_true" -> IF Rec.n >= 1 THEN "ok" ELSE "ProbeSilent"
       [] Rec.kind = "disabled" -> IF Rec.n = 0 /\ Rec.exit = 0 THEN "ok" ELSE "Disabled"
       [] Rec.kind = "switch_removes" -> IF Rec.monotone /\ Rec.n >= 0 /\ Rec.n < Rec.base THEN "ok" ELSE "SwitchNoEffect"
